@@ -76,8 +76,8 @@ SITES = {
                "idle_cfg": {"perf": {"enabled": True, "metrics": {"report_memory": True}},
                             "t2": {"quality": {"enabled": True, "fusion": {"alpha_semantic": 1.0}}}}, "mask_prefix": "t2q."},
     "mmr": {"cfg": {"perf": {"enabled": True, "metrics": {"report_memory": True}}, "t2": {"quality": {"enabled": True, "mmr": {"enabled": True}}}},
-            "idle_cfg": {"perf": {"enabled": True, "metrics": {"report_memory": True}}, "t2": {"quality": {"enabled": True, "mmr": {"enabled": False}}}},
-            "mask_prefix": "t2q."},
+            "idle_cfg": {"perf": {"enabled": True, "metrics": {"report_memory": True}}, "t2": {"quality": {"enabled": True, "mmr": {"enabled": False}}}}},
+    # (no mask for MMR: idle = the same layer with MMR switched off, whose record carries the same t2q.* keys)
     "quality_trace": {"cfg": {"perf": {"enabled": True, "metrics": {"report_memory": True}}, "t2": {"quality": {"enabled": False, "shadow": True}}},
                       "idle_cfg": {"perf": {"enabled": True, "metrics": {"report_memory": True}}, "t2": {"quality": {"enabled": False, "shadow": False}}}},
     # "t3_trace": its gate (perf.metrics.enabled + t3.trace.enabled) consists of keys the validator rejects, so the
@@ -366,7 +366,13 @@ def semi_garbage_case(case) -> List[Tuple[str, str]]:
     try:
         body = copy.deepcopy(case["body"])
         _set_path(body, tuple(case["path"]), copy.deepcopy(case["junk"]))
-        s = Session(os.path.join(work, "w"), base_cfg={}, boot_loaded=False)
+        from .. import engine as E
+        # the memories ep0..ep3 are retrieved together on every turn, so whatever the loader let through for the edges
+        # between them is read by the GEL observation of the very first turn
+        eps_ = [E.mk_episode(f"ep{j}", ["A", "A", "B", "world"][j], "I like apple and banana", ts=f"2025-08-{10 + j:02d}T00:00:00Z", importance=0.5, cluster="c0")
+                for j in range(4)]
+        s = Session(os.path.join(work, "w"), base_cfg={"graph": {"coactivation_threshold": 0.0, "observe_top_k": 4}, "t2": {"sim_threshold": -1.0, "owner_scope": "any"}},
+                    boot_loaded=False, episodes=eps_)
         os.makedirs(s.snapdir, exist_ok=True)
         with open(os.path.join(s.snapdir, "state_A.json"), "w") as f:
             json.dump(body, f)
